@@ -58,6 +58,8 @@ type vStaking struct {
 	reds      [][]stakingtypes.Redelegation
 	failAt    map[string]bool
 	hist      bool
+	ubdSlash  math.Int // amount SlashUnbondingDelegation reports per entry
+	redSlash  math.Int // amount SlashRedelegation reports per entry
 }
 
 func (s *vStaking) GetHistoricalInfo(ctx context.Context, height int64) (stakingtypes.HistoricalInfo, error) {
@@ -238,11 +240,17 @@ func (s *vStaking) GetRedelegationsFromSrcValidator(ctx context.Context, valAddr
 }
 
 func (s *vStaking) SlashUnbondingDelegation(ctx context.Context, ubd stakingtypes.UnbondingDelegation, infractionHeight int64, slashFactor math.LegacyDec) (math.Int, error) {
-	return math.ZeroInt(), nil
+	if s.ubdSlash.IsNil() {
+		return math.ZeroInt(), nil
+	}
+	return s.ubdSlash, nil
 }
 
 func (s *vStaking) SlashRedelegation(ctx context.Context, srcValidator stakingtypes.Validator, redelegation stakingtypes.Redelegation, infractionHeight int64, slashFactor math.LegacyDec) (math.Int, error) {
-	return math.ZeroInt(), nil
+	if s.redSlash.IsNil() {
+		return math.ZeroInt(), nil
+	}
+	return s.redSlash, nil
 }
 
 // ---------------------------------------------------------------------------
